@@ -63,7 +63,12 @@ class Peer(object):
         self.buf = b''
 
     def send(self, data):
-        self.sock.sendall(data)
+        # (a server that has hung up already makes the write fail: what matters is what it said, or did not say, before)
+        try:
+            self.sock.sendall(data)
+            return True
+        except Exception:  # noqa
+            return False
 
     def reply(self, timeout=1.0):
         """one complete reply -> (code, [lines]) or None on silence / EOF"""
@@ -447,6 +452,7 @@ def main():
                   'client': lambda: client_case(job[1])}[job[0]]()
         except Exception as e:  # noqa
             ev = [{'t': 'banner', 'code': 0, 'driver_error': type(e).__name__}]
+            stats['driver_errors'] = stats.get('driver_errors', 0) + 1
         if job[0] == 'starttls':
             cls = 'starttls' + ('-open' if len(job[1]) > 1 and b'MAIL' in job[1][1] else '') + ('-inject' if job[2] else '')
             cfg = {'kind': 'starttls'}
